@@ -56,7 +56,7 @@ TECH_V = 'Verus: contracts (requires/ensures/loop invariants, ghost effect log a
 TECH_K = 'Kani/CBMC: assume(requires); one call of the real function; assert(ensures) over full-domain symbolic inputs, harness mounted in the real crate under cfg(kani)'
 
 prop('C01', title='Responses reach exactly the call that asked',
-     verus=['client'], technique=TECH_V,
+     verus=['client'], native=['client_routing_bounded'], technique=TECH_V + '; plus a bounded replay search through the public API as a source of concrete failing inputs (never counted as proved)',
      assumptions=COMMON_V + ['A-oneshot', 'A-mpsc', 'A-ids', 'A-pair', 'A-delayqueue', 'A-sink'],
      level_text='Deductive proof over all table states, ids and responses: complete_request/complete/pump_read deliver a response body only to the oneshot channel stored under the response\'s own id, remove exactly that entry, and leave view, timers and effect log untouched for an unknown id; the write pump only ever delivers errors; insert stores exactly the given sender under the id written to the wire. Every history is a sequence of these contracted calls (single-owner dispatch), so the per-call clauses + dispatch invariant give the property for all interleavings.',
      level_note='The pairing of a call with its oneshot receiver (Channel::call) and tokio\'s oneshot delivery are assumed (A-pair, A-oneshot).',
@@ -119,12 +119,12 @@ prop('C14', SERVER_TOO, title="tarpc honours the pluggable transport's contract"
      level_note='Server channel and throttler call sites are in unit server when registered.',
      not_covered='server-side call sites until unit server is registered')
 prop('C16', SERVER_TOO, title='No peer-supplied input can crash an endpoint',
-     verus=['client'], kani=['k2_deadline_decode_total_and_shifted', 'k3_time_until_is_saturating_difference', 'k3_max_timer_delay_value', 'k1_errorkind_read_total_and_table'],
+     verus=['client'], kani=['k2_deadline_decode_total_and_shifted', 'k3_time_until_is_saturating_difference', 'k3_max_timer_delay_value', 'k3_deadline_field_always_renderable', 'k1_errorkind_read_total_and_table'],
      technique=TECH_V + '; ' + TECH_K,
      assumptions=COMMON_V + ['A-delayqueue', 'A-clock', 'A-codec'],
      level_text='Panic freedom as proof obligations: DelayQueue::insert/remove preconditions (range, key present) discharged at every call site from the table invariant and the clamp; unknown ids change nothing; decoding any deadline duration or error code is total (CBMC, full domain).',
-     level_note='Malformed frames are the codec\'s (dependency); the rpc.deadline span field rendering is not yet under contract.',
-     not_covered='rpc.deadline tracing field arithmetic (R12), server table (unit server)')
+     level_note='Malformed frames are the codec\'s (dependency). humantime renders every timestamp before year 10000 (its documented contract) is assumed.',
+     not_covered='malformed frames (codec)')
 prop('C18', SERVER_TOO, title='Trace context follows the request, and only that request',
      verus=['client', 'trace_ctx'], kani=['k6_otel_id_conversions_round_trip'], technique=TECH_V,
      assumptions=COMMON_V + ['A-otel', 'A-sink', 'A-rand'],
